@@ -5,6 +5,8 @@ from __future__ import annotations
 import math
 from xml.sax.saxutils import quoteattr
 
+import re
+
 import numpy as np
 from hypothesis import strategies as st
 
@@ -91,6 +93,9 @@ def _hit(draw, score_names):
         "scores": {n: (draw(st.sampled_from(EVALUES)) if n == "expect" else draw(st.integers(-5000, 50000)) / 1000.0) for n in score_names},
         "opt": [draw(st.integers(0, 3)), draw(st.integers(0, 2)), draw(st.integers(1, 5000))],
         "alt_first": draw(st.booleans()),
+        # terminal modifications are attributes of the modification_info element itself (not residue modifications)
+        "nterm": draw(st.sampled_from([None, None, None, "43.0184", "230.1", "2"])),
+        "cterm": draw(st.sampled_from([None, None, None, "17.0027"])),
     }
 
 
@@ -167,8 +172,9 @@ def render(f, case):
                                f'num_tot_proteins="{1 + len(h["alts"])}" calc_neutral_pep_mass="{h["calc_mass"]!r}" massdiff="0.1"{opt}>')
                     alts = [f'<alternative_protein protein={quoteattr(_pfx(a, case) + (" alt descr" if h["protein_descr"] else ""))}/>' for a in h["alts"]]
                     mods = []
-                    if h["mods"]:
-                        mods.append(f'<modification_info modified_peptide="{h["peptide"]}">')
+                    if h["mods"] or h.get("nterm") or h.get("cterm"):
+                        term = (f' mod_nterm_mass="{h["nterm"]}"' if h.get("nterm") else "") + (f' mod_cterm_mass="{h["cterm"]}"' if h.get("cterm") else "")
+                        mods.append(f'<modification_info modified_peptide="{h["peptide"]}"{term}>')
                         for m in h["mods"]:
                             mods.append(f'<mod_aminoacid_mass position="{m["position"]}" mass="{m["mass"]}"/>')
                         mods.append("</modification_info>")
@@ -202,6 +208,7 @@ def expected_rows(case):
                     prots = [_pfx(x, case) for x in [h["protein"]] + h["alts"]]
                     rows.append({"ms_data_file": name, "scan": sp["scan"], "charge": sp["charge"], "ret_time": sp["rt"],
                                  "exp_mass": sp["mass"], "calc_mass": h["calc_mass"], "peptide": pep,
+                                 "terminal_mods": bool(h.get("nterm") or h.get("cterm")),
                                  "proteins": "\t".join(prots), "label": not all(p.startswith(case.get("decoy_prefix", "decoy_")) for p in prots),
                                  "scores": {n: v for n, v in h["scores"].items() if not (f.get("drop_last_score") and n == case["score_names"][-1])},
                                  "opt": h["opt"], "opt_mask": f.get("opt_mask") or [bool(case["opt_attrs"])] * 3})
@@ -260,7 +267,13 @@ def check(case):
             for k in ("ret_time", "exp_mass", "calc_mass"):
                 require(float(g[k]) == e[k], "spectrum-field", f"hit {i}: {k} {g[k]!r} != {e[k]!r}")
             require(str(g["ms_data_file"]) == e["ms_data_file"], "data-file", f"hit {i}: {g['ms_data_file']} != {e['ms_data_file']}")
-            require(g["peptide"] == e["peptide"], "peptide", f"hit {i}: {g['peptide']} != {e['peptide']}")
+            gp = str(g["peptide"])
+            if e.get("terminal_mods"):
+                # the statement speaks of residue modifications; a notation for terminal ones (n[..] / c[..] around the
+                # peptide) may or may not be added - the residue modifications must sit after their residues either way
+                gp = re.sub(r"^n\[[^\]]*\]", "", gp)
+                gp = re.sub(r"c\[[^\]]*\]$", "", gp)
+            require(gp == e["peptide"], "peptide", f"hit {i}: {g['peptide']} != {e['peptide']}")
             require(g["proteins"] == e["proteins"], "proteins", f"hit {i}: {g['proteins']!r} != {e['proteins']!r}")
             require(bool(g["label"]) == e["label"], "label", f"hit {i}: label {g['label']} for proteins {e['proteins']!r}")
             for n, v in e["scores"].items():
